@@ -13,7 +13,11 @@ CHECKS['C12'] = {
             'real Get/Ask where every service misses (hinted roots first); request order of a real PutB with want=1 where every writable service '
             'refuses; relative order after remove/add; write-k-then-read (stored on the top-k, found at the first probe). Unit "balancer": N=2-32 '
             'single-mount servers, 1-3 hashes, one old replica on the last-ranked server, desired k=1..N-1, one real ComputeChangeSets run; pull '
-            'targets must be the documented top-k for every k. non-trivial = at least 2 services; distinct = fingerprint of (uuids, hash, locator)',
+            'targets must be the documented top-k for every k. Round 2 (both units): in ~45% (client) / ~40% (balancer) of the cases the set '
+            'contains 2-3 services whose weights for the read hash / the hash of the data written / one of the balancer hashes share their '
+            'first 4-8 hex digits and differ later (birthday search over splitmix64-derived candidates, a pure function of a drawn seed), or '
+            'a precomputed pair sharing 10-14 hex digits; 27-character and other-length UUID classes; in 1/3 of the read-hash groups one '
+            'member is the ADDED service. Labels *:longest-common-weight-prefix=... measure the set itself. non-trivial = at least 2 services; distinct = fingerprint of (uuids, hash, locator)',
     'assumptions': [
         'service sets in which two services share the 15-character UUID suffix (equal weights, order undefined by the documentation) are not generated',
         'a usable hint that names a service which is also a local root: only the position of the hinted probe and the relative order of the other services are checked (whether the service is probed twice is unspecified)',
@@ -21,7 +25,7 @@ CHECKS['C12'] = {
         'Python/Ruby clients are not exercised',
     ],
     'units': [
-        unit('client', 'keepclient_c12', '^TestVerifC12ClientProbeOrder$', {'shards': 10, 'checks': 1500}, {'shards': 16, 'checks': 80000, 'timeout': 3000}),
+        unit('client', 'keepclient_c12', '^TestVerifC12ClientProbeOrder$', {'shards': 10, 'checks': 1500}, {'shards': 16, 'checks': 64000, 'timeout': 3000}),
         unit('balancer', 'keepbalance_c12', '^TestVerifC12BalancerRanking$', {'shards': 6, 'checks': 500}, {'shards': 16, 'checks': 24000, 'timeout': 3000}),
     ],
 }
